@@ -953,4 +953,840 @@ theorem observe_within (ops : List (Op × List Nat)) : ∀ (s : MemStore), CInv 
     · rw [← this.1, st.out]; simp
     · exact this.2
 
+/-! ## §4 the two group caches: primary (by MLS group id) and index (by nostr group id) -/
+
+structure GI where
+  groups : List Group
+  byNid : List (Nat × Group)
+  qG : List Nat
+  qN : List Nat
+
+def GI.of (s : MemStore) : GI := ⟨s.u.groups, s.u.byNid, s.qGroups, s.qByNid⟩
+
+def nidOf (l : List Group) (k : Nat) : Nat :=
+  match l.find? (·.gid == k) with
+  | some g => g.nid
+  | none => 0
+
+/-- the two caches move in step: same groups, index consistent with the records, the index queue is the
+    image of the primary queue -/
+structure Paired (cap : Nat) (x : GI) : Prop where
+  ginv : GInv x.groups
+  idx : ∀ n, alookup n x.byNid = x.groups.find? (·.nid == n)
+  qnd : x.qG.Nodup
+  qmem : ∀ k, k ∈ x.qG ↔ ∃ g ∈ x.groups, g.gid = k
+  pair : x.qN = x.qG.map (nidOf x.groups)
+  len : x.qG.length ≤ cap
+
+theorem paired_empty (cap : Nat) : Paired cap ⟨[], [], [], []⟩ :=
+  ⟨List.Pairwise.nil, fun _ => rfl, List.nodup_nil, fun k => by simp, rfl, Nat.zero_le _⟩
+
+theorem dropLast_eq_filter {β : Type} [DecidableEq β] (l : List β) (h : l.Nodup) (e : β) (he : l.getLast? = some e) :
+    l.dropLast = l.filter (fun x => decide (x ≠ e)) := by
+  obtain ⟨ys, rfl⟩ := List.getLast?_eq_some_iff.mp he
+  have hnd := List.nodup_append.mp h
+  have h1 : ys.filter (fun x => decide (x ≠ e)) = ys :=
+    List.filter_eq_self.mpr (fun a ha => by
+      have : a ≠ e := fun c => hnd.2.2 a ha e (by simp) c
+      simpa using this)
+  rw [List.dropLast_concat, List.filter_append, h1]
+  simp
+
+theorem nidOf_of_mem {l : List Group} (h : GInv l) {y : Group} (hy : y ∈ l) : nidOf l y.gid = y.nid := by
+  unfold nidOf; rw [(find_gid_iff h y.gid y).mpr ⟨hy, rfl⟩]
+
+/-- `nidOf` agrees on two record lists that hold the same record for `k` -/
+theorem nidOf_congr {l l' : List Group} (h : GInv l) (h' : GInv l') (k : Nat)
+    (hk : ∀ y, y.gid = k → (y ∈ l' ↔ y ∈ l)) : nidOf l' k = nidOf l k := by
+  unfold nidOf
+  have : l'.find? (·.gid == k) = l.find? (·.gid == k) := by
+    apply opt_ext; intro y
+    rw [find_gid_iff h', find_gid_iff h]
+    constructor
+    · rintro ⟨a, b⟩; exact ⟨(hk y b).mp a, b⟩
+    · rintro ⟨a, b⟩; exact ⟨(hk y b).mpr a, b⟩
+  rw [this]
+
+theorem paired_qN_nodup (cap : Nat) (x : GI) (h : Paired cap x) : x.qN.Nodup := by
+  rw [h.pair, List.Nodup, List.pairwise_map]
+  refine List.Pairwise.imp_of_mem ?_ h.qnd
+  intro a b ha hb hne e
+  obtain ⟨ga, hga, rfl⟩ := (h.qmem a).mp ha
+  obtain ⟨gb, hgb, rfl⟩ := (h.qmem b).mp hb
+  rw [nidOf_of_mem h.ginv hga, nidOf_of_mem h.ginv hgb] at e
+  exact hne (by rw [ginv_eq_of_nid h.ginv hga hgb e])
+
+/-- logical step 1: the record of `k` leaves both caches -/
+theorem paired_remove (cap : Nat) (x : GI) (h : Paired cap x) (k : Nat) (G' : List Group) (B' : List (Nat × Group))
+    (hG : GInv G') (hGm : ∀ y, y ∈ G' ↔ y ∈ x.groups ∧ y.gid ≠ k)
+    (hB : ∀ n, alookup n B' = match x.groups.find? (·.gid == k) with
+      | some o => if o.nid = n then none else alookup n x.byNid
+      | none => alookup n x.byNid) :
+    Paired cap ⟨G', B', qRemove k x.qG, match x.groups.find? (·.gid == k) with
+      | some o => qRemove o.nid x.qN
+      | none => x.qN⟩ := by
+  have hnid : ∀ k', k' ≠ k → nidOf G' k' = nidOf x.groups k' := by
+    intro k' hk'
+    apply nidOf_congr h.ginv hG
+    intro y hy
+    rw [hGm]
+    exact ⟨fun a => a.1, fun a => ⟨a, by rw [hy]; exact hk'⟩⟩
+  refine ⟨hG, ?_, qRemove_nodup k _ h.qnd, ?_, ?_, Nat.le_trans (List.length_filter_le _ _) h.len⟩
+  · intro n
+    rw [hB n]
+    apply opt_ext; intro y
+    rw [find_nid_iff hG, hGm]
+    cases hf : x.groups.find? (·.gid == k) with
+    | none =>
+      simp only [h.idx, find_nid_iff h.ginv]
+      constructor
+      · rintro ⟨a, b⟩
+        refine ⟨⟨a, fun e => ?_⟩, b⟩
+        have := (find_gid_iff h.ginv k y).mpr ⟨a, e⟩
+        rw [hf] at this; cases this
+      · rintro ⟨⟨a, _⟩, b⟩; exact ⟨a, b⟩
+    | some o =>
+      obtain ⟨ho, hok⟩ := (find_gid_iff h.ginv k o).mp hf
+      by_cases e : o.nid = n
+      · simp only [e, if_true]
+        constructor
+        · intro c; cases c
+        · rintro ⟨⟨a, b⟩, c⟩
+          have : y = o := ginv_eq_of_nid h.ginv a ho (c.trans e.symm)
+          subst this; exact absurd hok b
+      · simp only [e, if_false, h.idx, find_nid_iff h.ginv]
+        constructor
+        · rintro ⟨a, b⟩
+          refine ⟨⟨a, fun c => ?_⟩, b⟩
+          have : y = o := ginv_eq_of_gid h.ginv a ho (c.trans hok.symm)
+          subst this; exact e b
+        · rintro ⟨⟨a, _⟩, b⟩; exact ⟨a, b⟩
+  · intro k'
+    rw [mem_qRemove, h.qmem]
+    constructor
+    · rintro ⟨⟨g, hg, rfl⟩, hne⟩; exact ⟨g, (hGm g).mpr ⟨hg, hne⟩, rfl⟩
+    · rintro ⟨g, hg, rfl⟩; exact ⟨⟨g, ((hGm g).mp hg).1, rfl⟩, ((hGm g).mp hg).2⟩
+  · show (match x.groups.find? (·.gid == k) with
+      | some o => qRemove o.nid x.qN
+      | none => x.qN) = (qRemove k x.qG).map (nidOf G')
+    have hmap : (qRemove k x.qG).map (nidOf G') = (qRemove k x.qG).map (nidOf x.groups) := by
+      apply List.map_congr_left
+      intro a ha
+      exact hnid a ((mem_qRemove k _ a).mp ha).2
+    rw [hmap]
+    cases hf : x.groups.find? (·.gid == k) with
+    | none =>
+      have hk : k ∉ x.qG := by
+        intro c
+        obtain ⟨g, hg, hgk⟩ := (h.qmem k).mp c
+        have := (find_gid_iff h.ginv k g).mpr ⟨hg, hgk⟩
+        rw [hf] at this; cases this
+      have : qRemove k x.qG = x.qG := by
+        unfold qRemove
+        exact List.filter_eq_self.mpr (fun a ha => by
+          have : a ≠ k := fun c => hk (c ▸ ha)
+          simpa using this)
+      rw [this]; exact h.pair
+    | some o =>
+      obtain ⟨ho, hok⟩ := (find_gid_iff h.ginv k o).mp hf
+      simp only []
+      rw [h.pair]
+      unfold qRemove
+      rw [List.filter_map]
+      congr 1
+      apply List.filter_congr
+      intro a ha
+      obtain ⟨ga, hga, rfl⟩ := (h.qmem a).mp ha
+      simp only [Function.comp, nidOf_of_mem h.ginv hga]
+      by_cases c : ga.gid = k
+      · have : ga = o := ginv_eq_of_gid h.ginv hga ho (c.trans hok.symm)
+        subst this; simp [c]
+      · have : ga.nid ≠ o.nid := fun e => by
+          have : ga = o := ginv_eq_of_nid h.ginv hga ho e
+          subst this; exact c hok
+        simp [c, this]
+
+/-- logical step 2: a record whose ids are both free enters both caches at the front -/
+theorem paired_insert (cap : Nat) (x : GI) (h : Paired cap x) (g : Group) (G' : List Group) (B' : List (Nat × Group))
+    (hfreeG : ∀ y ∈ x.groups, y.gid ≠ g.gid) (hfreeN : ∀ y ∈ x.groups, y.nid ≠ g.nid) (hroom : x.qG.length < cap)
+    (hG : GInv G') (hGm : ∀ y, y ∈ G' ↔ y = g ∨ y ∈ x.groups)
+    (hB : ∀ n, alookup n B' = if n = g.nid then some g else alookup n x.byNid) :
+    Paired cap ⟨G', B', g.gid :: x.qG, g.nid :: x.qN⟩ := by
+  have hgm : g ∈ G' := (hGm g).mpr (Or.inl rfl)
+  have hnotin : g.gid ∉ x.qG := by
+    intro c
+    obtain ⟨y, hy, e⟩ := (h.qmem g.gid).mp c
+    exact hfreeG y hy e
+  refine ⟨hG, ?_, List.nodup_cons.mpr ⟨hnotin, h.qnd⟩, ?_, ?_, by simp only [List.length_cons]; omega⟩
+  · intro n
+    rw [hB n]
+    by_cases c : n = g.nid
+    · subst c; simp only [if_true]
+      exact ((find_nid_iff hG _ g).mpr ⟨hgm, rfl⟩).symm
+    · simp only [c, if_false]
+      apply opt_ext; intro y
+      rw [find_nid_iff hG, hGm, h.idx, find_nid_iff h.ginv]
+      constructor
+      · rintro ⟨a, b⟩; exact ⟨Or.inr a, b⟩
+      · rintro ⟨rfl | a, b⟩
+        · exact absurd b.symm c
+        · exact ⟨a, b⟩
+  · intro k
+    simp only [List.mem_cons, h.qmem]
+    constructor
+    · rintro (rfl | ⟨y, hy, rfl⟩)
+      · exact ⟨g, hgm, rfl⟩
+      · exact ⟨y, (hGm y).mpr (Or.inr hy), rfl⟩
+    · rintro ⟨y, hy, rfl⟩
+      rcases (hGm y).mp hy with rfl | hy'
+      · exact Or.inl rfl
+      · exact Or.inr ⟨y, hy', rfl⟩
+  · show g.nid :: x.qN = (g.gid :: x.qG).map (nidOf G')
+    simp only [List.map_cons]
+    rw [nidOf_of_mem hG hgm, h.pair]
+    congr 1
+    apply List.map_congr_left
+    intro a ha
+    symm
+    apply nidOf_congr h.ginv hG
+    intro y hy
+    rw [hGm]
+    constructor
+    · rintro (rfl | b)
+      · exact absurd hy (fun e => hnotin (e ▸ ha))
+      · exact b
+    · exact Or.inr
+
+/-! ### the `put`s of the two caches on the pair -/
+
+def giPutG (cap : Nat) (x : GI) (k : Nat) : GI :=
+  match (qTouch cap k x.qG).2 with
+  | none => { x with qG := (qTouch cap k x.qG).1 }
+  | some e => { x with qG := (qTouch cap k x.qG).1, groups := x.groups.filter (·.gid != e) }
+
+def giPutN (cap : Nat) (x : GI) (k : Nat) : GI :=
+  match (qTouch cap k x.qN).2 with
+  | none => { x with qN := (qTouch cap k x.qN).1 }
+  | some e => { x with qN := (qTouch cap k x.qN).1, byNid := aerase e x.byNid }
+
+theorem of_putGroups (s : MemStore) (k : Nat) :
+    GI.of (putGroups s k) = giPutG s.cap (GI.of s) k ∧ (putGroups s k).cap = s.cap ∧ (putGroups s k).u.backend = s.u.backend ∧
+      (putGroups s k).u.snaps = s.u.snaps := by
+  unfold putGroups giPutG GI.of
+  simp only []
+  generalize (qTouch s.cap k s.qGroups) = r
+  obtain ⟨r1, r2⟩ := r
+  cases r2 <;> simp
+
+theorem of_putByNid (s : MemStore) (k : Nat) :
+    GI.of (putByNid s k) = giPutN s.cap (GI.of s) k ∧ (putByNid s k).cap = s.cap ∧ (putByNid s k).u.backend = s.u.backend ∧
+      (putByNid s k).u.snaps = s.u.snaps := by
+  unfold putByNid giPutN GI.of
+  simp only []
+  generalize (qTouch s.cap k s.qByNid) = r
+  obtain ⟨r1, r2⟩ := r
+  cases r2 <;> simp
+
+theorem ginv_filter (l : List Group) (h : GInv l) (p : Group → Bool) : GInv (l.filter p) :=
+  List.Pairwise.sublist List.filter_sublist h
+
+/-- a record with free ids is put into both caches (each under its capacity): the caches stay paired -/
+theorem paired_enter (cap : Nat) (hcap : 0 < cap) (x : GI) (h : Paired cap x) (g : Group) (G1 : List Group) (B1 : List (Nat × Group))
+    (hfreeG : ∀ y ∈ x.groups, y.gid ≠ g.gid) (hfreeN : ∀ y ∈ x.groups, y.nid ≠ g.nid)
+    (hG : GInv G1) (hGm : ∀ y, y ∈ G1 ↔ y = g ∨ y ∈ x.groups)
+    (hB : ∀ n, alookup n B1 = if n = g.nid then some g else alookup n x.byNid) :
+    Paired cap (giPutN cap (giPutG cap ⟨G1, B1, x.qG, x.qN⟩ g.gid) g.nid) := by
+  have hnotG : g.gid ∉ x.qG := by
+    intro c
+    obtain ⟨y, hy, e⟩ := (h.qmem g.gid).mp c
+    exact hfreeG y hy e
+  have hnotN : g.nid ∉ x.qN := by
+    rw [h.pair]
+    intro c
+    obtain ⟨a, ha, e⟩ := List.mem_map.mp c
+    obtain ⟨y, hy, rfl⟩ := (h.qmem a).mp ha
+    rw [nidOf_of_mem h.ginv hy] at e
+    exact hfreeN y hy e
+  have hlenN : x.qN.length = x.qG.length := by rw [h.pair]; simp
+  by_cases c : x.qG.length < cap
+  · have t1 : qTouch cap g.gid x.qG = (g.gid :: x.qG, none) := by unfold qTouch; rw [if_neg hnotG, if_pos c]
+    have t2 : qTouch cap g.nid x.qN = (g.nid :: x.qN, none) := by
+      unfold qTouch; rw [if_neg hnotN, if_pos (by rw [hlenN]; exact c)]
+    have e : giPutN cap (giPutG cap ⟨G1, B1, x.qG, x.qN⟩ g.gid) g.nid = ⟨G1, B1, g.gid :: x.qG, g.nid :: x.qN⟩ := by
+      simp only [giPutG, giPutN, t1, t2]
+    rw [e]
+    exact paired_insert cap x h g G1 B1 hfreeG hfreeN c hG hGm hB
+  · have hfull : x.qG.length = cap := by have := h.len; omega
+    have hne : x.qG ≠ [] := by intro e; rw [e] at hfull; simp at hfull; omega
+    obtain ⟨e, he⟩ : ∃ e, x.qG.getLast? = some e := by
+      cases hl : x.qG.getLast? with
+      | none => exact absurd (List.getLast?_eq_none_iff.mp hl) hne
+      | some e => exact ⟨e, rfl⟩
+    have heq : e ∈ x.qG := List.mem_of_getLast? he
+    obtain ⟨oe, hoe, hoeg⟩ := (h.qmem e).mp heq
+    have hfind : x.groups.find? (·.gid == e) = some oe := (find_gid_iff h.ginv e oe).mpr ⟨hoe, hoeg⟩
+    have heN : x.qN.getLast? = some oe.nid := by
+      rw [h.pair, List.getLast?_map, he]
+      simp only [Option.map_some]
+      rw [← hoeg, nidOf_of_mem h.ginv hoe]
+    have t1 : qTouch cap g.gid x.qG = (g.gid :: x.qG.dropLast, some e) := by
+      unfold qTouch; rw [if_neg hnotG, if_neg c, he]
+    have t2 : qTouch cap g.nid x.qN = (g.nid :: x.qN.dropLast, some oe.nid) := by
+      unfold qTouch; rw [if_neg hnotN, if_neg (by rw [hlenN]; exact c), heN]
+    have e1 : giPutN cap (giPutG cap ⟨G1, B1, x.qG, x.qN⟩ g.gid) g.nid =
+        ⟨G1.filter (·.gid != e), aerase oe.nid B1, g.gid :: x.qG.dropLast, g.nid :: x.qN.dropLast⟩ := by
+      simp only [giPutG, giPutN, t1, t2]
+    rw [e1, dropLast_eq_filter x.qG h.qnd e he, dropLast_eq_filter x.qN (paired_qN_nodup cap x h) oe.nid heN]
+    -- logically: the least recently used record leaves, then the new record enters
+    have hmid := paired_remove cap x h e (x.groups.filter (·.gid != e)) (aerase oe.nid x.byNid)
+      (ginv_filter _ h.ginv _)
+      (fun y => by simp [List.mem_filter])
+      (fun n => by
+        rw [hfind]
+        by_cases c2 : oe.nid = n
+        · subst c2; simp [alookup_aerase_self]
+        · simp only [c2, if_false]; exact alookup_aerase_ne _ _ _ (fun e => c2 e.symm))
+    rw [hfind] at hmid
+    simp only [] at hmid
+    have hge : g.gid ≠ e := fun c2 => hnotG (c2 ▸ heq)
+    refine paired_insert cap _ hmid g _ _ ?_ ?_ ?_ (ginv_filter _ hG _) ?_ ?_
+    · intro y hy; exact hfreeG y (List.mem_filter.mp hy).1
+    · intro y hy; exact hfreeN y (List.mem_filter.mp hy).1
+    · show (qRemove e x.qG).length < cap
+      have : (x.qG.filter (fun a => decide (a ≠ e))).length < x.qG.length :=
+        List.length_filter_lt_length_iff_exists.mpr ⟨e, heq, by simp⟩
+      unfold qRemove; omega
+    · intro y
+      simp only [List.mem_filter, hGm, bne_iff_ne, ne_eq]
+      constructor
+      · rintro ⟨rfl | a, b⟩
+        · exact Or.inl rfl
+        · exact Or.inr ⟨a, b⟩
+      · rintro (rfl | ⟨a, b⟩)
+        · exact ⟨Or.inl rfl, hge⟩
+        · exact ⟨Or.inr a, b⟩
+    · intro n
+      show alookup n (aerase oe.nid B1) = if n = g.nid then some g else alookup n (aerase oe.nid x.byNid)
+      have hgn : g.nid ≠ oe.nid := fun c2 => hfreeN oe hoe c2.symm
+      by_cases c2 : n = oe.nid
+      · subst c2
+        rw [alookup_aerase_self, alookup_aerase_self, if_neg (fun c3 => hgn c3.symm)]
+      · rw [alookup_aerase_ne _ _ _ c2, alookup_aerase_ne _ _ _ c2]; exact hB n
+
+/-! ### `save_group` on the pair -/
+
+def giSave (cap : Nat) (x : GI) (g : Group) : GI :=
+  giPutN cap (giPutG cap ⟨replaceGroup g x.groups, ainsert g.nid g (match x.groups.find? (·.gid == g.gid) with | some o => if o.nid != g.nid then aerase o.nid x.byNid else x.byNid | none => x.byNid), x.qG, (match x.groups.find? (·.gid == g.gid) with | some o => if o.nid != g.nid then qRemove o.nid x.qN else x.qN | none => x.qN)⟩ g.gid) g.nid
+
+theorem saveGroup_mem_nocoll (u u' : Store) (g : Group) (hb : u.backend = .mem) (h : Store.saveGroup u g = some u') :
+    ∀ o, alookup g.nid u.byNid = some o → o.gid = g.gid := by
+  intro o ho
+  by_cases c : o.gid = g.gid
+  · exact c
+  · exfalso
+    have hne : (o.gid != g.gid) = true := by simpa using c
+    unfold Store.saveGroup at h
+    simp only [hb, ho, hne, if_true] at h
+    repeat' split at h
+    all_goals cases h
+
+theorem of_saveGroup (s : MemStore) (g : Group) (s' : MemStore) (hb : s.u.backend = .mem) (h : saveGroup s g = some s') :
+    GI.of s' = giSave s.cap (GI.of s) g ∧ (∀ o, alookup g.nid s.u.byNid = some o → o.gid = g.gid) ∧
+      s'.cap = s.cap ∧ s'.u.backend = .mem ∧ s'.u.snaps = s.u.snaps := by
+  cases hs : Store.saveGroup s.u g with
+  | none => unfold saveGroup at h; rw [hs] at h; cases h
+  | some u' =>
+    rw [saveGroup_eq s g u' hs] at h
+    have h' := (Option.some.inj h).symm
+    have hu := saveGroup_mem_some s.u u' g hb hs
+    obtain ⟨a1, a2, a3, a4⟩ := of_putGroups { s with u := u', qByNid := staleQ s g } g.gid
+    obtain ⟨b1, b2, b3, b4⟩ := of_putByNid (putGroups { s with u := u', qByNid := staleQ s g } g.gid) g.nid
+    refine ⟨?_, saveGroup_mem_nocoll s.u u' g hb hs, ?_, ?_, ?_⟩
+    · rw [h', b1, a1, a2]
+      show giPutN s.cap (giPutG s.cap ⟨u'.groups, u'.byNid, s.qGroups, staleQ s g⟩ g.gid) g.nid = _
+      rw [hu]
+      rfl
+    · rw [h', b2, a2]
+    · rw [h', b3, a3]; show u'.backend = _; rw [hu]; exact hb
+    · rw [h', b4, a4]; show u'.snaps = _; rw [hu]
+
+theorem paired_save (cap : Nat) (hcap : 0 < cap) (x : GI) (h : Paired cap x) (g : Group)
+    (hnc : ∀ o, alookup g.nid x.byNid = some o → o.gid = g.gid) : Paired cap (giSave cap x g) := by
+  have hfree : ∀ y ∈ x.groups, y.nid = g.nid → y.gid = g.gid := by
+    intro y hy e
+    have : alookup g.nid x.byNid = some y := by rw [h.idx]; exact (find_nid_iff h.ginv _ y).mpr ⟨hy, e⟩
+    exact hnc y this
+  have hG1 : GInv (replaceGroup g x.groups) := ginv_replaceGroup h.ginv g hfree
+  unfold giSave
+  cases hf : x.groups.find? (·.gid == g.gid) with
+  | none =>
+    have hfreeG : ∀ y ∈ x.groups, y.gid ≠ g.gid := by
+      intro y hy e
+      have := (find_gid_iff h.ginv g.gid y).mpr ⟨hy, e⟩
+      rw [hf] at this; cases this
+    have hfreeN : ∀ y ∈ x.groups, y.nid ≠ g.nid := fun y hy e => hfreeG y hy (hfree y hy e)
+    simp only []
+    refine paired_enter cap hcap x h g _ _ hfreeG hfreeN hG1 ?_ ?_
+    · intro y
+      rw [mem_replaceGroup h.ginv]
+      constructor
+      · rintro (a | ⟨a, _⟩); exact Or.inl a; exact Or.inr a
+      · rintro (a | a); exact Or.inl a; exact Or.inr ⟨a, hfreeG y a⟩
+    · intro n
+      by_cases c : n = g.nid
+      · subst c; simp [alookup_ainsert_self]
+      · simp only [c, if_false]; exact alookup_ainsert_ne _ _ _ _ c
+  | some o =>
+    obtain ⟨ho, hog⟩ := (find_gid_iff h.ginv g.gid o).mp hf
+    have hin : g.gid ∈ x.qG := (h.qmem g.gid).mpr ⟨o, ho, hog⟩
+    simp only []
+    -- logically: the old record leaves, the new one enters
+    have hmid := paired_remove cap x h g.gid (x.groups.filter (·.gid != g.gid)) (aerase o.nid x.byNid)
+      (ginv_filter _ h.ginv _)
+      (fun y => by simp [List.mem_filter])
+      (fun n => by
+        rw [hf]
+        by_cases c2 : o.nid = n
+        · subst c2; simp [alookup_aerase_self]
+        · simp only [c2, if_false]; exact alookup_aerase_ne _ _ _ (fun e => c2 e.symm))
+    rw [hf] at hmid
+    simp only [] at hmid
+    have hlen : (qRemove g.gid x.qG).length < cap := by
+      have : (x.qG.filter (fun a => decide (a ≠ g.gid))).length < x.qG.length :=
+        List.length_filter_lt_length_iff_exists.mpr ⟨g.gid, hin, by simp⟩
+      have := h.len
+      unfold qRemove; omega
+    have hfin := paired_insert cap _ hmid g (replaceGroup g x.groups)
+      (ainsert g.nid g (if o.nid != g.nid then aerase o.nid x.byNid else x.byNid))
+      (fun y hy => by simpa using (List.mem_filter.mp hy).2)
+      (fun y hy e => by
+        have hy' := List.mem_filter.mp hy
+        exact (by simpa using hy'.2 : y.gid ≠ g.gid) (hfree y hy'.1 e))
+      hlen hG1
+      (fun y => by
+        rw [mem_replaceGroup h.ginv]
+        simp [List.mem_filter])
+      (fun n => by
+        show alookup n (ainsert g.nid g (if o.nid != g.nid then aerase o.nid x.byNid else x.byNid)) =
+          if n = g.nid then some g else alookup n (aerase o.nid x.byNid)
+        by_cases c : n = g.nid
+        · subst c; simp [alookup_ainsert_self]
+        · simp only [c, if_false]
+          rw [alookup_ainsert_ne _ _ _ _ c]
+          by_cases c2 : o.nid = g.nid
+          · have : (o.nid != g.nid) = false := by simp [c2]
+            simp only [this, Bool.false_eq_true, if_false]
+            rw [c2]; exact (alookup_aerase_ne _ _ _ c).symm
+          · have : (o.nid != g.nid) = true := by simp [c2]
+            simp only [this, if_true])
+    -- the code's queues are exactly these
+    have t1 : qTouch cap g.gid x.qG = (g.gid :: qRemove g.gid x.qG, none) := by
+      unfold qTouch qRemove; rw [if_pos hin]
+    have hqN : (qRemove o.nid x.qN).length = (qRemove g.gid x.qG).length := by
+      have hp : qRemove o.nid x.qN = (qRemove g.gid x.qG).map (nidOf (x.groups.filter (·.gid != g.gid))) := hmid.pair
+      rw [hp]; simp
+    have t2 : qTouch cap g.nid (if o.nid != g.nid then qRemove o.nid x.qN else x.qN) = (g.nid :: qRemove o.nid x.qN, none) := by
+      by_cases c2 : o.nid = g.nid
+      · have hb : (o.nid != g.nid) = false := by simp [c2]
+        have hmem : g.nid ∈ x.qN := by
+          rw [h.pair]
+          refine List.mem_map.mpr ⟨g.gid, hin, ?_⟩
+          rw [← hog, nidOf_of_mem h.ginv ho, c2]
+        simp only [hb, Bool.false_eq_true, if_false]
+        unfold qTouch qRemove; rw [if_pos hmem, c2]
+      · have hb : (o.nid != g.nid) = true := by simp [c2]
+        simp only [hb, if_true]
+        have hnot : g.nid ∉ qRemove o.nid x.qN := by
+          intro c
+          have c' := ((mem_qRemove o.nid x.qN g.nid).mp c).1
+          rw [h.pair] at c'
+          obtain ⟨a, ha, e⟩ := List.mem_map.mp c'
+          obtain ⟨y, hy, rfl⟩ := (h.qmem a).mp ha
+          rw [nidOf_of_mem h.ginv hy] at e
+          have : y = o := ginv_eq_of_gid h.ginv hy ho ((hfree y hy e).trans hog.symm)
+          subst this; exact c2 e
+        unfold qTouch; rw [if_neg hnot, if_pos (by rw [hqN]; exact hlen)]
+    have e : giPutN cap (giPutG cap ⟨replaceGroup g x.groups,
+        ainsert g.nid g (if o.nid != g.nid then aerase o.nid x.byNid else x.byNid), x.qG,
+        (if o.nid != g.nid then qRemove o.nid x.qN else x.qN)⟩ g.gid) g.nid =
+        ⟨replaceGroup g x.groups, ainsert g.nid g (if o.nid != g.nid then aerase o.nid x.byNid else x.byNid),
+         g.gid :: qRemove g.gid x.qG, g.nid :: qRemove o.nid x.qN⟩ := by
+      simp only [giPutG, giPutN, t1, t2]
+    rw [e]
+    exact hfin
+
+/-! ### `rollback_group_to_snapshot` on the pair -/
+
+def giB0 (x : GI) (gid : Nat) : List (Nat × Group) :=
+  match x.groups.find? (·.gid == gid) with
+  | some o => aerase o.nid x.byNid
+  | none => x.byNid
+def giQ0 (x : GI) (gid : Nat) : List Nat :=
+  match x.groups.find? (·.gid == gid) with
+  | some o => qRemove o.nid x.qN
+  | none => x.qN
+
+def giRestore (cap : Nat) (x : GI) (gid : Nat) (pg : Option Group) : GI :=
+  match pg with
+  | some g => giPutN cap (giPutG cap ⟨replaceGroup g x.groups, ainsert g.nid g (giB0 x gid), qRemove gid x.qG, giQ0 x gid⟩ gid) g.nid
+  | none => ⟨x.groups.filter (·.gid != gid), giB0 x gid, qRemove gid x.qG, giQ0 x gid⟩
+
+theorem paired_restore (cap : Nat) (hcap : 0 < cap) (x : GI) (h : Paired cap x) (gid : Nat) (pg : Option Group)
+    (hpg : ∀ g, pg = some g → g.gid = gid ∧ ∀ y ∈ x.groups, y.nid = g.nid → y.gid = gid) :
+    Paired cap (giRestore cap x gid pg) := by
+  have hmid := paired_remove cap x h gid (x.groups.filter (·.gid != gid)) (giB0 x gid)
+    (ginv_filter _ h.ginv _)
+    (fun y => by simp [List.mem_filter])
+    (fun n => by
+      unfold giB0
+      cases x.groups.find? (·.gid == gid) with
+      | none => rfl
+      | some o =>
+        simp only []
+        by_cases c2 : o.nid = n
+        · subst c2; simp [alookup_aerase_self]
+        · simp only [c2, if_false]; exact alookup_aerase_ne _ _ _ (fun e => c2 e.symm))
+  have hmid' : Paired cap ⟨x.groups.filter (·.gid != gid), giB0 x gid, qRemove gid x.qG, giQ0 x gid⟩ := hmid
+  cases pg with
+  | none => exact hmid'
+  | some g =>
+    obtain ⟨hgg, hfree⟩ := hpg g rfl
+    subst hgg
+    unfold giRestore
+    simp only []
+    refine paired_enter cap hcap _ hmid' g _ _ ?_ ?_ (ginv_replaceGroup h.ginv g hfree) ?_ ?_
+    · intro y hy
+      have := (List.mem_filter.mp hy).2
+      simpa using this
+    · intro y hy e
+      have hy' := List.mem_filter.mp hy
+      exact (by simpa using hy'.2 : y.gid ≠ g.gid) (hfree y hy'.1 e)
+    · intro y
+      rw [mem_replaceGroup h.ginv]
+      simp [List.mem_filter]
+    · intro n
+      show alookup n (ainsert g.nid g (giB0 x g.gid)) = if n = g.nid then some g else alookup n (giB0 x g.gid)
+      by_cases c : n = g.nid
+      · subst c; simp [alookup_ainsert_self]
+      · simp only [c, if_false]; exact alookup_ainsert_ne _ _ _ _ c
+
+/-! ### frame: every other cache operation leaves the pair alone -/
+
+structure GFrame (a b : MemStore) : Prop where
+  gi : GI.of a = GI.of b
+  cap : a.cap = b.cap
+  hb : a.u.backend = b.u.backend
+  sn : a.u.snaps = b.u.snaps
+
+theorem gframe_refl (a : MemStore) : GFrame a a := ⟨rfl, rfl, rfl, rfl⟩
+theorem gframe_trans {a b c : MemStore} (h1 : GFrame a b) (h2 : GFrame b c) : GFrame a c :=
+  ⟨h1.gi.trans h2.gi, h1.cap.trans h2.cap, h1.hb.trans h2.hb, h1.sn.trans h2.sn⟩
+
+theorem gframe_putRelays (s : MemStore) (k : Nat) : GFrame (putRelays s k) s := by
+  unfold putRelays
+  generalize (qTouch s.cap k s.qRelays) = r
+  obtain ⟨r1, r2⟩ := r
+  cases r2 <;> exact ⟨rfl, rfl, rfl, rfl⟩
+theorem gframe_putSecrets (s : MemStore) (k : Nat × Nat) : GFrame (putSecrets s k) s := by
+  unfold putSecrets
+  generalize (qTouch s.cap k s.qSecrets) = r
+  obtain ⟨r1, r2⟩ := r
+  cases r2 <;> exact ⟨rfl, rfl, rfl, rfl⟩
+theorem gframe_putWelcomes (s : MemStore) (k : Nat) : GFrame (putWelcomes s k) s := by
+  unfold putWelcomes
+  generalize (qTouch s.cap k s.qWelcomes) = r
+  obtain ⟨r1, r2⟩ := r
+  cases r2 <;> exact ⟨rfl, rfl, rfl, rfl⟩
+theorem gframe_putPws (s : MemStore) (k : Nat) : GFrame (putPws s k) s := by
+  unfold putPws
+  generalize (qTouch s.cap k s.qPws) = r
+  obtain ⟨r1, r2⟩ := r
+  cases r2 <;> exact ⟨rfl, rfl, rfl, rfl⟩
+theorem gframe_putById (s : MemStore) (k : Nat) : GFrame (putById s k) s := by
+  unfold putById
+  generalize (qTouch s.cap k s.qById) = r
+  obtain ⟨r1, r2⟩ := r
+  cases r2 <;> exact ⟨rfl, rfl, rfl, rfl⟩
+theorem gframe_putMsgGroups (s : MemStore) (k : Nat) : GFrame (putMsgGroups s k) s := by
+  unfold putMsgGroups
+  generalize (qTouch s.cap k s.qMsgGroups) = r
+  obtain ⟨r1, r2⟩ := r
+  cases r2 <;> exact ⟨rfl, rfl, rfl, rfl⟩
+theorem gframe_putPms (s : MemStore) (k : Nat) : GFrame (putPms s k) s := by
+  unfold putPms
+  generalize (qTouch s.cap k s.qPms) = r
+  obtain ⟨r1, r2⟩ := r
+  cases r2 <;> exact ⟨rfl, rfl, rfl, rfl⟩
+
+theorem gframe_foldSecrets (gid : Nat) (es : List Nat) : ∀ a : MemStore,
+    GFrame (es.foldl (fun acc e => putSecrets acc (gid, e)) a) a := by
+  induction es with
+  | nil => intro a; exact gframe_refl a
+  | cons e t ih => intro a; exact gframe_trans (ih _) (gframe_putSecrets a (gid, e))
+
+theorem gframe_saveMessage (s : MemStore) (m : Msg) (pick : Option Nat) (s' : MemStore)
+    (h : saveMessage s m pick = some s') : GFrame s' s := by
+  unfold saveMessage at h
+  split at h
+  · cases h
+  · split at h
+    · have h' := (Option.some.inj h).symm
+      rw [h']
+      refine gframe_trans (gframe_putById _ _) ?_
+      have hs1 : GFrame (if capHit s m then
+          match victim (groupMsgs s.u m.gid) pick with
+          | some v => { s with u := { s.u with msgs := s.u.msgs.filter (fun x => !(x.gid == m.gid && x.id == v)) },
+                               byId := aerase v s.byId, qById := qRemove v s.qById, evlog := (9, v) :: s.evlog }
+          | none => s
+        else s) s := by
+        split
+        · split <;> exact ⟨rfl, rfl, rfl, rfl⟩
+        · exact gframe_refl s
+      refine gframe_trans ?_ hs1
+      exact ⟨rfl, rfl, rfl, rfl⟩
+    · have h' := (Option.some.inj h).symm
+      rw [h']
+      refine gframe_trans (gframe_putById _ _) ?_
+      refine gframe_trans ?_ (gframe_trans (gframe_putMsgGroups { s with u := { s.u with msgs := upsertMsg m s.u.msgs } } m.gid) ⟨rfl, rfl, rfl, rfl⟩)
+      exact ⟨rfl, rfl, rfl, rfl⟩
+
+theorem of_snapRollback (s : MemStore) (gid name : Nat) (ch : List Nat) (s' : MemStore) (hb : s.u.backend = .mem)
+    (h : snapRollback s gid name ch = some s') :
+    ∃ p, findSnap s.u gid name = some p ∧ GI.of s' = giRestore s.cap (GI.of s) p.gid p.group ∧ s'.cap = s.cap ∧
+      s'.u.backend = .mem ∧ s'.u.snaps = dropSnap p.gid p.name s.u.snaps := by
+  unfold snapRollback at h
+  cases hf : findSnap s.u gid name with
+  | none => rw [hf] at h; cases h
+  | some p =>
+    rw [hf] at h
+    simp only [] at h
+    rw [restore_mem s.u p hb] at h
+    simp only [] at h
+    have h' := (Option.some.inj h).symm
+    clear h
+    refine ⟨p, rfl, ?_⟩
+    -- name the restored content
+    generalize hu : ({ s.u with
+      groups := (match p.group with | some g => replaceGroup g s.u.groups | none => s.u.groups.filter (·.gid != p.gid)),
+      byNid := (match p.group with | some g => ainsert g.nid g (restoreB0 s.u p.gid) | none => restoreB0 s.u p.gid),
+      relays := (if p.relays.isEmpty then aerase p.gid s.u.relays else ainsert p.gid p.relays (aerase p.gid s.u.relays)),
+      secrets := s.u.secrets.filter (·.1 != p.gid) ++ p.secrets.map (fun kv => (p.gid, kv.1, kv.2)),
+      mls := s.u.mls.filter (·.1 != p.gid) ++ p.mls.map (fun kv => (p.gid, kv.1, kv.2)),
+      snaps := dropSnap p.gid p.name s.u.snaps } : Store) = u' at h'
+    have f1 := gframe_foldSecrets p.gid (secOrder ch (p.secrets.map (·.1)))
+      (if p.relays.isEmpty then (match p.group with
+          | some g => putByNid (putGroups (afterPops s u' p) p.gid) g.nid
+          | none => afterPops s u' p)
+        else putRelays (match p.group with
+          | some g => putByNid (putGroups (afterPops s u' p) p.gid) g.nid
+          | none => afterPops s u' p) p.gid)
+    have f2 : GFrame (if p.relays.isEmpty then (match p.group with
+          | some g => putByNid (putGroups (afterPops s u' p) p.gid) g.nid
+          | none => afterPops s u' p)
+        else putRelays (match p.group with
+          | some g => putByNid (putGroups (afterPops s u' p) p.gid) g.nid
+          | none => afterPops s u' p) p.gid) (match p.group with
+          | some g => putByNid (putGroups (afterPops s u' p) p.gid) g.nid
+          | none => afterPops s u' p) := by
+      split
+      · exact gframe_refl _
+      · exact gframe_putRelays _ _
+    have f := gframe_trans f1 f2
+    have hs' : s' = (secOrder ch (p.secrets.map (·.1))).foldl (fun acc e => putSecrets acc (p.gid, e))
+        (if p.relays.isEmpty then (match p.group with
+          | some g => putByNid (putGroups (afterPops s u' p) p.gid) g.nid
+          | none => afterPops s u' p)
+        else putRelays (match p.group with
+          | some g => putByNid (putGroups (afterPops s u' p) p.gid) g.nid
+          | none => afterPops s u' p) p.gid) := h'
+    rw [hs', f.gi, f.cap, f.hb, f.sn]
+    cases hpg : p.group with
+    | none =>
+      simp only []
+      subst hu
+      refine ⟨?_, rfl, hb, rfl⟩
+      simp only [GI.of, afterPops, giRestore, hpg]
+      rfl
+    | some g =>
+      simp only []
+      obtain ⟨a1, a2, a3, a4⟩ := of_putGroups (afterPops s u' p) p.gid
+      obtain ⟨b1, b2, b3, b4⟩ := of_putByNid (putGroups (afterPops s u' p) p.gid) g.nid
+      rw [b1, b2, b3, b4, a1, a2, a3, a4]
+      subst hu
+      refine ⟨?_, rfl, hb, rfl⟩
+      simp only [GI.of, afterPops, giRestore, hpg]
+      rfl
+
+/-! ### the invariant over ALL histories (beyond the capacities too) -/
+
+structure PInv (s : MemStore) : Prop where
+  hb : s.u.backend = .mem
+  pos : 0 < s.cap
+  paired : Paired s.cap (GI.of s)
+  sg : ∀ p ∈ s.u.snaps, ∀ g, p.group = some g → g.gid = p.gid
+
+theorem pinv_empty (cap msgCap : Nat) (h : 0 < cap) : PInv (MemStore.empty cap msgCap) :=
+  ⟨rfl, h, paired_empty cap, fun _ hp => by cases hp⟩
+
+/-- the rollback does not bring back a nostr group id that ANOTHER held group carries now
+    (outside: the open finding restore-nostr-id-collision) -/
+def noCollision (s : MemStore) : Op → Bool
+  | .snapRollback gid name =>
+    match findSnap s.u gid name with
+    | none => true
+    | some p =>
+      match p.group with
+      | none => true
+      | some g => !s.u.groups.any (fun h => h.nid == g.nid && h.gid != p.gid)
+  | _ => true
+
+def NoCollisionRun (s : MemStore) : List (Op × List Nat) → Bool
+  | [] => true
+  | (o, ch) :: r => noCollision s o && NoCollisionRun (step s o ch).1 r
+
+theorem pinv_frame (s s' : MemStore) (h : PInv s) (f : GFrame s' s) : PInv s' :=
+  ⟨f.hb.trans h.hb, by rw [f.cap]; exact h.pos, by rw [f.cap, f.gi]; exact h.paired, by rw [f.sn]; exact h.sg⟩
+
+theorem pinv_saveGroup (s : MemStore) (h : PInv s) (g : Group) (s' : MemStore) (hs : saveGroup s g = some s') : PInv s' := by
+  obtain ⟨e1, e2, e3, e4, e5⟩ := of_saveGroup s g s' h.hb hs
+  exact ⟨e4, by rw [e3]; exact h.pos, by rw [e3, e1]; exact paired_save s.cap h.pos _ h.paired g e2, by rw [e5]; exact h.sg⟩
+
+theorem step_paired (s : MemStore) (h : PInv s) (op : Op) (ch : List Nat) (hnc : noCollision s op = true) :
+    PInv (step s op ch).1 := by
+  cases op
+  case saveGroup g =>
+    simp only [step]
+    cases hs : saveGroup s g with
+    | none => exact h
+    | some s' => exact pinv_saveGroup s h g s' hs
+  case updLast gid c p i =>
+    simp only [step, updLastOp]
+    cases findGroup s.u gid with
+    | none => exact h
+    | some g =>
+      simp only []
+      cases hs : saveGroup s (updLast g (c, p, i)) with
+      | none => exact h
+      | some s' => exact pinv_saveGroup s h _ s' hs
+  case snapRollback gid name =>
+    simp only [step]
+    cases hs : snapRollback s gid name ch with
+    | none => exact h
+    | some s' =>
+      obtain ⟨p, hf, e1, e2, e3, e4⟩ := of_snapRollback s gid name ch s' h.hb hs
+      have hp := (findSnap_spec hf).1
+      show PInv s'
+      refine ⟨e3, by rw [e2]; exact h.pos, ?_, by rw [e4]; intro q hq; exact h.sg q (List.mem_filter.mp hq).1⟩
+      rw [e2, e1]
+      apply paired_restore s.cap h.pos _ h.paired
+      intro g hg
+      refine ⟨h.sg p hp g hg, ?_⟩
+      intro y hy e
+      simp only [noCollision, hf, hg] at hnc
+      by_cases c : y.gid = p.gid
+      · exact c
+      · exfalso
+        have : s.u.groups.any (fun h => h.nid == g.nid && h.gid != p.gid) = true := by
+          simp only [List.any_eq_true, Bool.and_eq_true, beq_iff_eq, bne_iff_ne]
+          exact ⟨y, hy, e, c⟩
+        rw [this] at hnc; cases hnc
+  case snapCreate gid name ts =>
+    simp only [step]
+    unfold snapCreate
+    rw [snapCreate_mem s.u gid name ts h.hb]
+    refine ⟨h.hb, h.pos, h.paired, ?_⟩
+    intro p hp g hg
+    rcases List.mem_append.mp hp with hp | hp
+    · exact h.sg p (List.mem_filter.mp hp).1 g hg
+    · have : p = takeSnap s.u gid name ts := by simpa using hp
+      subst this
+      exact findGroup_gid hg
+  case snapRelease gid name =>
+    exact ⟨h.hb, h.pos, h.paired, fun p hp => h.sg p (List.mem_filter.mp hp).1⟩
+  case snapPrune t =>
+    exact ⟨h.hb, h.pos, h.paired, fun p hp => h.sg p (List.mem_filter.mp hp).1⟩
+  case saveMessage m =>
+    simp only [step]
+    cases hs : saveMessage s m ch.head? with
+    | none => exact h
+    | some s' => exact pinv_frame s s' h (gframe_saveMessage s m _ s' hs)
+  case savePm p => exact pinv_frame s _ h (gframe_trans (gframe_putPms _ _) ⟨rfl, rfl, rfl, rfl⟩)
+  case savePw p => exact pinv_frame s _ h (gframe_trans (gframe_putPws _ _) ⟨rfl, rfl, rfl, rfl⟩)
+  case invalMsgs gid e => exact pinv_frame s _ h ⟨rfl, rfl, rfl, rfl⟩
+  case invalPms gid e => exact pinv_frame s _ h ⟨rfl, rfl, rfl, rfl⟩
+  case markRetryable w =>
+    simp only [step, markRetryable]
+    cases hm : Store.markRetryable s.u w with
+    | none => exact pinv_frame s _ h ⟨rfl, rfl, rfl, rfl⟩
+    | some u' =>
+      have hu : ∃ p, u' = { s.u with pms := upsertPm p s.u.pms } := by
+        unfold Store.markRetryable at hm
+        repeat' split at hm
+        all_goals first | (cases hm; done) | (cases hm; exact ⟨_, rfl⟩)
+      obtain ⟨p, rfl⟩ := hu
+      exact pinv_frame s _ h ⟨rfl, rfl, rfl, rfl⟩
+  case replaceRelays gid rs =>
+    simp only [step, replaceRelays]
+    cases hs : Store.replaceRelays s.u gid rs with
+    | none => exact h
+    | some u' =>
+      have hu : u' = { s.u with relays := ainsert gid (sortBy natLt rs.eraseDups) s.u.relays } := by
+        unfold Store.replaceRelays at hs
+        simp only [] at hs
+        repeat' split at hs
+        all_goals first | (cases hs; done) | (cases hs; rfl)
+      subst hu
+      exact pinv_frame s _ h (gframe_trans (gframe_putRelays _ _) ⟨rfl, rfl, rfl, rfl⟩)
+  case saveSecret gid ep v =>
+    simp only [step, saveSecret]
+    cases hs : Store.saveSecret s.u gid ep v with
+    | none => exact h
+    | some u' =>
+      have hu : u' = { s.u with secrets := upsertSecret gid ep v s.u.secrets } := by
+        unfold Store.saveSecret at hs
+        repeat' split at hs
+        all_goals first | (cases hs; done) | (cases hs; rfl)
+      subst hu
+      exact pinv_frame s _ h (gframe_trans (gframe_putSecrets _ _) ⟨rfl, rfl, rfl, rfl⟩)
+  case saveWelcome w =>
+    simp only [step, saveWelcome]
+    cases hs : Store.saveWelcome s.u w with
+    | none => exact h
+    | some u' =>
+      have hu : u' = { s.u with welcomes := upsertWelcome w s.u.welcomes } := by
+        unfold Store.saveWelcome at hs
+        repeat' split at hs
+        all_goals first | (cases hs; done) | (cases hs; rfl)
+      subst hu
+      exact pinv_frame s _ h (gframe_trans (gframe_putWelcomes _ _) ⟨rfl, rfl, rfl, rfl⟩)
+  case mlsWrite gid k v => exact pinv_frame s _ h ⟨rfl, rfl, rfl, rfl⟩
+  case mlsDelete gid k => exact pinv_frame s _ h ⟨rfl, rfl, rfl, rfl⟩
+  all_goals exact h
+
+theorem run_paired (ops : List (Op × List Nat)) : ∀ s : MemStore, PInv s → NoCollisionRun s ops = true → PInv (run s ops) := by
+  induction ops with
+  | nil => intro s h _; exact h
+  | cons oc os ih =>
+    intro s h hnc
+    obtain ⟨o, ch⟩ := oc
+    simp only [NoCollisionRun, Bool.and_eq_true] at hnc
+    exact ih _ (step_paired s h o ch hnc.1) hnc.2
+
+/-- what the paired caches give the caller: the two lookups never disagree -/
+theorem paired_lookups (s : MemStore) (h : PInv s) (n : Nat) (g : Group) :
+    (findGroupNostr s.u n = some g → g.nid = n ∧ findGroup s.u g.gid = some g) ∧
+    (findGroup s.u n = some g → findGroupNostr s.u g.nid = some g) := by
+  have hi := h.paired.idx
+  have hg := h.paired.ginv
+  constructor
+  · intro hf
+    simp only [findGroupNostr, h.hb] at hf
+    have : s.u.groups.find? (·.nid == n) = some g := by rw [← hf]; exact (hi n).symm
+    obtain ⟨hm, hn⟩ := (find_nid_iff hg n g).mp this
+    exact ⟨hn, (find_gid_iff hg g.gid g).mpr ⟨hm, rfl⟩⟩
+  · intro hf
+    obtain ⟨hm, _⟩ := (find_gid_iff hg n g).mp hf
+    simp only [findGroupNostr, h.hb]
+    exact (hi g.nid).trans ((find_nid_iff hg g.nid g).mpr ⟨hm, rfl⟩)
+
 end MdkVerif.MemLru
